@@ -323,9 +323,13 @@ def tableless_kwargs_check(chk):
                 chk.count('tableless_kwargs_refused'); continue
             except Exception as ex:
                 chk.fail('tableless-kwargs-raises:' + type(ex).__name__, {'qname': list(q), 'keyword': kw}, repr(ex)); continue
-            ok, res = wellformed(PROLOGUE + X.to_xml(e))
+            try:
+                out = X.to_xml(e)
+            except Exception as ex:
+                chk.fail('serialise-raises:keyword-attribute', {'qname': list(q), 'keyword': kw}, 'toXml raised %r' % (ex,)); continue
+            ok, res = wellformed(PROLOGUE + out)
             if not ok:
-                chk.fail('not-wellformed:keyword-attribute', {'qname': list(q), 'keyword': kw}, '%s: %r' % (res, X.to_xml(e)[:200]))
+                chk.fail('not-wellformed:keyword-attribute', {'qname': list(q), 'keyword': kw}, '%s: %r' % (res, out[:200]))
 
 
 # ------------------------------------------------------------------ namespace histories (fresh interpreters)
